@@ -65,6 +65,9 @@ type c08World struct {
 	nroots int
 	// placement/eviction happened at least once
 	placed bool
+	// batch mode (verif_c08_batch_test.go): the store runs on the hookable driver and the batched
+	// loops are recorded transaction by transaction; nil in the plain harness
+	bt *c08Batch
 }
 
 var errC08Fn = errors.New("verif: injected fn failure")
@@ -172,7 +175,7 @@ func (w *c08World) recount(after string) {
 			w.monitor("volume-used-differs-from-recount", fmt.Sprintf("after %s: volume %d used_sectors=%d occupied slots=%d", after, v.ID, v.UsedSectors, used))
 		}
 		if int64(v.TotalSectors) != total {
-			w.monitor("volume-total-differs-from-recount", fmt.Sprintf("after %s: volume %d total_sectors=%d slots=%d", after, v.ID, v.TotalSectors, total))
+			w.monitor(w.totalSig("volume-total-differs-from-recount"), fmt.Sprintf("after %s: volume %d total_sectors=%d slots=%d", after, v.ID, v.TotalSectors, total))
 		}
 	}
 	m, err := w.db.Metrics(time.Now().Add(time.Hour))
@@ -184,7 +187,7 @@ func (w *c08World) recount(after string) {
 			w.monitor(sig, fmt.Sprintf("after %s: metric=%d recount=%d", after, metric, n))
 		}
 	}
-	chk("metric-total-sectors-differs-from-recount", m.Storage.TotalSectors, `SELECT COUNT(*) FROM volume_sectors`)
+	chk(w.totalSig("metric-total-sectors-differs-from-recount"), m.Storage.TotalSectors, `SELECT COUNT(*) FROM volume_sectors`)
 	chk("metric-physical-sectors-differs-from-recount", m.Storage.PhysicalSectors, `SELECT COUNT(*) FROM volume_sectors WHERE sector_id IS NOT NULL`)
 	chk("metric-contract-sectors-differs-from-recount", m.Storage.ContractSectors, `SELECT (SELECT COUNT(*) FROM contract_sector_roots)+(SELECT COUNT(*) FROM contract_v2_sector_roots)`)
 	chk("metric-temp-sectors-differs-from-recount", m.Storage.TempSectors, `SELECT COUNT(*) FROM temp_storage_sector_roots`)
@@ -196,7 +199,7 @@ func (w *c08World) recount(after string) {
 		w.monitor("storage-usage-used-differs-from-recount", fmt.Sprintf("after %s: used=%d recount=%d", after, used, n))
 	}
 	if n := w.scalar(`SELECT COUNT(*) FROM volume_sectors`); int64(total) != n {
-		w.monitor("storage-usage-total-differs-from-recount", fmt.Sprintf("after %s: total=%d recount=%d", after, total, n))
+		w.monitor(w.totalSig("storage-usage-total-differs-from-recount"), fmt.Sprintf("after %s: total=%d recount=%d", after, total, n))
 	}
 	if n := w.scalar(`SELECT COUNT(*) FROM (SELECT sector_id FROM volume_sectors WHERE sector_id IS NOT NULL GROUP BY sector_id HAVING COUNT(*) > 1)`); n != 0 {
 		w.monitor("sector-occupies-two-slots", fmt.Sprintf("after %s: %d sectors", after, n))
@@ -273,7 +276,19 @@ func (w *c08World) snapshot() {
 // after is called after every mutating operation
 func (w *c08World) after(what string) {
 	w.recount(what)
+	if w.bt != nil && w.bt.sparse {
+		return // large worlds of the batch harness: snapshots where the case asks for them
+	}
 	w.snapshot()
+}
+
+// totalSig: a ShrinkVolume of a volume whose removal was cut after a batch is a recorded finding
+// (directed case of the batch harness); every other divergence of a total counter keeps its sig
+func (w *c08World) totalSig(sig string) string {
+	if w.bt != nil && w.bt.unsafeShrink {
+		return "total-sectors-wrong-after-shrink-of-partly-removed-volume"
+	}
+	return sig
 }
 
 // ---------------------------------------------------------------- operations
@@ -298,6 +313,11 @@ func (w *c08World) grow(id int64, n uint64) {
 }
 
 func (w *c08World) shrink(id int64, n uint64) {
+	if w.bt != nil && !w.bt.unsafeShrink && w.volGapped(id) && !w.shrinkIsSafe(id, n) {
+		// the proviso of the batch theorems (and the recorded finding): not in generated sequences
+		w.count("skip:shrink-of-partly-removed-volume")
+		return
+	}
 	err, p := c08Call(func() error { return w.db.ShrinkVolume(id, n) })
 	w.step(fmt.Sprintf("Shrink %d %d", id, n), c08ErrTerm(err, p))
 	w.count("op:Shrink:" + c08Outcome(err, p))
@@ -314,6 +334,12 @@ func c08Outcome(err error, p bool) string {
 }
 
 func (w *c08World) removeVolume(id int64, force bool) {
+	if w.batched() {
+		if w.removeVolumeB(id, force) && w.retryCut() {
+			w.removeVolume(id, force)
+		}
+		return
+	}
 	before := w.slots()
 	m0, _ := w.db.Metrics(time.Now().Add(time.Hour))
 	err, p := c08Call(func() error { return w.db.RemoveVolume(id, force) })
@@ -467,6 +493,12 @@ func (w *c08World) storeRemoved(r int) {
 }
 
 func (w *c08World) migrate(id int64, start uint64, failRate int) {
+	if w.batched() {
+		if w.migrateB(id, start, failRate) && w.retryCut() {
+			w.migrate(id, start, failRate)
+		}
+		return
+	}
 	var calls []string
 	var migrated, failed int
 	err, p := c08Call(func() (err error) {
@@ -558,6 +590,12 @@ func (w *c08World) addTemp1(r int, exp uint64) {
 }
 
 func (w *c08World) expireTemp(h uint64) {
+	if w.batched() {
+		if w.expireTempB(h) && w.retryCut() {
+			w.expireTemp(h)
+		}
+		return
+	}
 	err, p := c08Call(func() error { return w.db.ExpireTempSectors(h) })
 	w.step(fmt.Sprintf("ExpireTemp %d", h), c08ErrTerm(err, p))
 	w.count("op:ExpireTemp")
@@ -605,6 +643,10 @@ func (w *c08World) addContract(v2 bool, endH, neg uint64) *c08Contract {
 }
 
 func (w *c08World) renew(old *c08Contract, endH, neg uint64) *c08Contract {
+	if w.conGapped(old) {
+		w.count("skip:renew-of-partly-expired-contract")
+		return nil
+	}
 	c := w.newContract(old.v2, endH, neg)
 	var err error
 	if old.v2 {
@@ -657,6 +699,10 @@ type c08Change struct {
 }
 
 func (w *c08World) reviseV1(c *c08Contract, chs []c08Change) {
+	if w.conGapped(c) {
+		w.count("skip:revise-of-partly-expired-contract")
+		return
+	}
 	var sc []contracts.SectorChange
 	var terms []string
 	for _, ch := range chs {
@@ -684,6 +730,10 @@ func (w *c08World) reviseV1(c *c08Contract, chs []c08Change) {
 }
 
 func (w *c08World) reviseV2(c *c08Contract, newRoots []int) {
+	if w.conGapped(c) {
+		w.count("skip:revise-of-partly-expired-contract")
+		return
+	}
 	old := w.curRoots(c)
 	var nr []types.Hash256
 	var terms []string
@@ -699,6 +749,12 @@ func (w *c08World) reviseV2(c *c08Contract, newRoots []int) {
 }
 
 func (w *c08World) expireV1(h uint64) {
+	if w.batched() {
+		if w.expireConsB(false, h) && w.retryCut() {
+			w.expireV1(h)
+		}
+		return
+	}
 	err, p := c08Call(func() error { return w.db.ExpireContractSectors(h) })
 	w.step(fmt.Sprintf("ExpireV1 %d", h), c08ErrTerm(err, p))
 	w.count("op:ExpireV1")
@@ -706,6 +762,12 @@ func (w *c08World) expireV1(h uint64) {
 }
 
 func (w *c08World) expireV2(h uint64) {
+	if w.batched() {
+		if w.expireConsB(true, h) && w.retryCut() {
+			w.expireV2(h)
+		}
+		return
+	}
 	err, p := c08Call(func() error { return w.db.ExpireV2ContractSectors(h) })
 	w.step(fmt.Sprintf("ExpireV2 %d", h), c08ErrTerm(err, p))
 	w.count("op:ExpireV2")
@@ -713,6 +775,12 @@ func (w *c08World) expireV2(h uint64) {
 }
 
 func (w *c08World) prune(all bool) {
+	if all && w.batched() {
+		if w.pruneB() && w.retryCut() {
+			w.prune(true)
+		}
+		return
+	}
 	cutoff := time.Now().Add(-time.Hour)
 	if all {
 		cutoff = time.Now().Add(time.Hour)
@@ -788,6 +856,12 @@ func (w *c08World) references() map[int][]c08Ref {
 // reclaim = expiry processing at height h followed by a prune, with the property's own
 // predicate evaluated on the slots before and after.
 func (w *c08World) reclaim(h uint64) {
+	if w.bt != nil {
+		// the loops are still recorded batch by batch, but nothing is cut or interleaved: the
+		// monitor below judges the undisturbed expire+prune
+		w.bt.quiet++
+		defer func() { w.bt.quiet-- }()
+	}
 	before := w.slots()
 	refs := w.references()
 	w.expireV1(h)
@@ -1015,7 +1089,7 @@ func (w *c08World) generated() {
 	rng := w.rng
 	w.res.desc = "generated sequence"
 	nv := 1 + rng.Intn(3)
-	wide := rng.Intn(5) == 0 // more rows than a (testing-tag) batch
+	wide := rng.Intn(5) == 0 || (w.bt != nil && rng.Intn(3) != 0) // more rows than a (testing-tag) batch
 	if wide {
 		w.nroots = 16
 		w.res.desc = "generated sequence (wide)"
